@@ -104,7 +104,9 @@ fn check(program: &Vec<TIns>, st: &mut Stats) -> CheckResult {
     }
     let source: Vec<String> = stmts.iter().map(|s| s.text.clone()).collect();
     let class = |base: &str| {
-        if g.features.inexact_float_exponent {
+        if g.features.second_base_unit {
+            format!("{base}:second-base-unit")
+        } else if g.features.inexact_float_exponent {
             format!("{base}:inexact-float-exponent")
         } else if g.features.polymorphic_literal {
             format!("{base}:polymorphic-literal")
